@@ -24,21 +24,25 @@ BUDGET_S = {"quick": 150.0, "thorough": 2400.0}
 
 
 def _variants(tier):
-    return [[d, k, p, v] for d in (2, 3) for k in ("cosine", "peskin") for p in ("float32", "float64") for v in (False, True)]
+    base = [[d, k, p, v, "palette"] for d in (2, 3) for k in ("cosine", "peskin") for p in ("float32", "float64") for v in (False, True)]
+    return base + [[d, k, "float64", True, "large"] for d in (2, 3) for k in ("cosine", "peskin")]
 
 
 def _strategy(tier, var):
-    dim, kt, dtype, vec = var
+    dim, kt, dtype, vec, nmode = var
 
     @st.composite
     def case(draw):
-        n = draw(st.sampled_from(ibm.N_PALETTE[dim]))
+        n = draw(st.sampled_from(ibm.N_PALETTE[dim])) if nmode == "palette" else ibm.N_LARGE
         hi = (30 if dim == 2 else 12) if tier == "quick" else (64 if dim == 2 else 20)
         nc = dim if vec else 1
-        return {"dim": dim, "kernel": kt, "dtype": dtype, "vector": vec, "dx": draw(st.sampled_from(ibm.DX_PALETTE)), "n": n,
-                "shape": draw(gen.grid_shape(dim, 6, hi)), "markers": draw(ibm.marker_spec(dim, n)),
+        large = nmode == "large"
+        return {"dim": dim, "kernel": kt, "dtype": dtype, "vector": vec,
+                "dx": ibm.DX_PALETTE[0] if large else draw(st.sampled_from(ibm.DX_PALETTE)), "n": n,
+                "marker_key": draw(gen.block_keys) if large else None,
+                "shape": draw(gen.grid_shape(dim, 8 if large else 6, hi)), "markers": draw(ibm.marker_spec(dim, 6 if large else n)),
                 "u": draw(gen.vector_field_spec(nc, max_mag_exp=6)), "prefill": draw(gen.vector_field_spec(nc, max_mag_exp=6)),
-                "F": draw(st.lists(st.lists(gen.floats(-8.0, 8.0, 32), min_size=n, max_size=n), min_size=nc, max_size=nc)),
+                "F": draw(st.lists(st.lists(gen.floats(-8.0, 8.0, 32), min_size=min(n, 40), max_size=min(n, 40)), min_size=nc, max_size=nc)),
                 "F_exp": draw(st.integers(-6, 6)), "calls": draw(st.integers(1, 3)),
                 "point": draw(st.lists(gen.floats(-1.0, 2.0, 32), min_size=dim, max_size=dim))}
 
@@ -55,12 +59,16 @@ def _body(case, ctx):
         com, dxr, shift = ibm.communicator(dim, case["dx"], n, real_t, nc, kt)
     dx = float(dxr)
     vol = dx**dim
-    pos, labels = ibm.build_markers(case["markers"], shape, dx)
+    pos, labels = ibm.build_markers_any(case, shape, dx)
     with ctx.repo_call("support + weights kernels"):
         nearest, support, w = ibm.compute_weights(com, pos, dim, n, real_t)
     u = gen.build_vector_field(case["u"], shape, real_t)
     pre = gen.build_vector_field(case["prefill"], shape, real_t)
-    F = (np.array(case["F"], dtype=np.float64) * 2.0 ** case["F_exp"]).astype(real_t)
+    Fd = np.array(case["F"], dtype=np.float64)
+    if Fd.shape[1] < n:  # large marker sets: drawn values tiled with a deterministic modulation
+        reps = -(-n // Fd.shape[1])
+        Fd = np.tile(Fd, (1, reps))[:, :n] * (1.0 + 0.37 * np.cos(np.arange(n)))
+    F = (Fd * 2.0 ** case["F_exp"]).astype(real_t)
     if not vec:
         u, pre, F = u[0], pre[0], F[0]
     lag = np.zeros_like(F)
@@ -129,7 +137,7 @@ def _body(case, ctx):
         np.fill_diagonal(d, np.inf)
         overlap = bool(np.any(d < 4 * dx))
     ctx.note(nontrivial=overlap and pre_mag > 0,
-             labels=[f"{dim}d_{kt}_{case['dtype']}_{'vec' if vec else 'sca'}", f"calls{calls}"]
+             labels=[f"{dim}d_{kt}_{case['dtype']}_{'vec' if vec else 'sca'}", f"calls{calls}", f"markers_{n}"]
              + (["duplicates"] if "duplicate" in labels[1:] else []) + (["same_cell"] if "same_cell" in labels[1:] else []))
 
 
